@@ -37,11 +37,11 @@ vt_proof! { unwind = 10; fn c23_decode_key_text_blob() {
     else { data[0] = 0x21; let r = core::mem::ManuallyDrop::new(decode_key(&data[..n])); if let Ok((_, used)) = &*r { assert!(*used <= n, "role=decode_key_consumes_within_input"); } else { kani::cover!(n == 8, "w:blob_without_terminator"); } }
 }}
 
-// @vt prop=C23 tier=quick bound="RecordView over arbitrary record bytes of 2..=12 bytes, schema (int4, text, int2, blob): is_null, every getter of every column" outside="longer records; other schemas" timeout=900 mem=16
-vt_proof! { unwind = 14; fn c23_record_view_arbitrary_bytes() {
+// @vt prop=C23 tier=quick bound="RecordView over arbitrary record bytes of 2..=10 bytes, schema (int4, text, int2, blob): is_null, every getter of every column" outside="longer records; other schemas" timeout=1200 mem=30
+vt_proof! { unwind = 12; fn c23_record_view_arbitrary_bytes() {
     let schema = core::mem::ManuallyDrop::new(schema_of(&[DataType::Int4, DataType::Text, DataType::Int2, DataType::Blob]));
-    let data: [u8; 12] = kani::any();
-    let n: usize = kani::any(); kani::assume(n >= 2 && n <= 12);
+    let data: [u8; 10] = kani::any();
+    let n: usize = kani::any(); kani::assume(n >= 2 && n <= 10);
     let view = core::mem::ManuallyDrop::new(RecordView::new(&data[..n], &schema));
     if let Ok(v) = &*view {
         kani::cover!(true, "w:view_constructed");
